@@ -428,3 +428,15 @@ func VerifIsGroupElement(v int, n *big.Int) bool {
 	}
 	return verifVersion(v).isGroupElement(n)
 }
+
+// VerifAKEKeys is calculateAKEKeys: ssid, c, c', m1, m2, m1', m2' for the shared secret s.
+func VerifAKEKeys(s *big.Int, v int) [][]byte {
+	ssid, rk, sk := calculateAKEKeys(s, verifVersion(v))
+	return [][]byte{makeCopy(ssid[:]), makeCopy(rk.c), makeCopy(sk.c), makeCopy(rk.m1), makeCopy(rk.m2), makeCopy(sk.m1), makeCopy(sk.m2)}
+}
+
+// VerifSessionKeys is calculateDHSessionKeys: sending/receiving AES key, sending/receiving MAC key, extra key.
+func VerifSessionKeys(ourPriv []byte, ourPub, theirPub *big.Int, v int) [][]byte {
+	k := calculateDHSessionKeys(secretKeyValue(makeCopy(ourPriv)), ourPub, theirPub, verifVersion(v))
+	return [][]byte{makeCopy(k.sendingAESKey), makeCopy(k.receivingAESKey), makeCopy(k.sendingMACKey), makeCopy(k.receivingMACKey), makeCopy(k.extraKey)}
+}
